@@ -377,6 +377,27 @@ def run(tier):
                     used = True
             rep.check(used, "loader-span", "on_event:from_bare_yaml#%d" % nfb, "a node built in on_event is placed without with_span(span)",
                       site=site(oe, t["sp"]))
+    # every node handed on (to insert_new_node, or pushed on the stack of open collections) is, on every path, the direct result of
+    # with_span(<node>, <span of this event>) - a node taken from the anchor table (alias) included
+    nplaced = 0
+    for bb, t, ck, fr in oe.calls():
+        node_e = None
+        if ck and ck.endswith("::insert_new_node"):
+            node_e = cfg.expr_operand(oe, t["args"][1], 8)
+        elif ck == "std::vec::Vec::push" and cfg.expr_fields(cfg.strip_reborrow(cfg.expr_operand(oe, t["args"][0], 4))[1] if cfg.strip_reborrow(cfg.expr_operand(oe, t["args"][0], 4))[0] == "ref" else ("x",)) == ["doc_stack"]:
+            node_e = cfg.expr_operand(oe, t["args"][1], 8)
+        if node_e is None:
+            continue
+        nplaced += 1
+        first = node_e[2][0] if node_e[0] == "agg" and node_e[1] == "tuple" and node_e[2] else node_e
+        okp = first[0] == "call" and first[1] == "saphyr::loader::LoadableYamlNode::with_span" and first[2][1] == ("param", 3)
+        # a collection that is being closed comes off the stack of open collections, where it was put with its span when it was opened
+        whole = cfg.expr_str(node_e)
+        if not okp and "Vec::pop(" in whole and "doc_stack" in whole:
+            okp = True
+        rep.check(okp, "loader-span", "on_event:placed#%d" % nplaced, "a node is handed on without having been given the span of the event that produced it on every path "
+                  "(an alias node must carry the alias's position, not the anchored node's)", site=site(oe, t["sp"]), detail=cfg.expr_str(first)[:160])
+    rep.floor("nodes handed on by on_event", nplaced, 4)
     for ty in ("saphyr::annotated::marked_yaml::MarkedYaml", "saphyr::annotated::marked_yaml_owned::MarkedYamlOwned"):
         f = F.fn("<%s as saphyr::loader::LoadableYamlNode>::with_span" % ty)
         st = [cfg.expr_operand(f, s["rv"]["a"], 4) for bi, si, s in cfg.stmts(f) if s["k"] == "assign" and cfg.place_fields(s["lhs"]) == ["span"] and s["rv"]["k"] == "use"]
